@@ -35,10 +35,11 @@ impl MemoryFS {
         }
     }
 
-    fn ensure_has_parent(&self, path: &str) -> VfsResult<()> {
+    /// Checks for the parent in the (already locked) file map, so that check and update are atomic
+    fn ensure_has_parent(files: &HashMap<String, MemoryFile>, path: &str) -> VfsResult<()> {
         let separator = path.rfind('/');
         if let Some(index) = separator {
-            if self.exists(&path[..index])? {
+            if files.contains_key(&path[..index]) {
                 return Ok(());
             }
         }
@@ -192,8 +193,9 @@ impl FileSystem for MemoryFS {
     }
 
     fn create_dir(&self, path: &str) -> VfsResult<()> {
-        self.ensure_has_parent(path)?;
-        let map = &mut self.handle.write().unwrap().files;
+        let mut handle = self.handle.write().unwrap();
+        Self::ensure_has_parent(&handle.files, path)?;
+        let map = &mut handle.files;
         let entry = map.entry(path.to_string());
         match entry {
             Entry::Occupied(file) => {
@@ -231,9 +233,9 @@ impl FileSystem for MemoryFS {
     }
 
     fn create_file(&self, path: &str) -> VfsResult<Box<dyn SeekAndWrite + Send>> {
-        self.ensure_has_parent(path)?;
         let content = Arc::new(Vec::<u8>::new());
         let mut handle = self.handle.write().unwrap();
+        Self::ensure_has_parent(&handle.files, path)?;
         if let Some(existing) = handle.files.get(path) {
             ensure_file(existing)?;
         }
@@ -329,10 +331,15 @@ impl FileSystem for MemoryFS {
     }
 
     fn remove_dir(&self, path: &str) -> VfsResult<()> {
-        if self.read_dir(path)?.next().is_some() {
+        let mut handle = self.handle.write().unwrap();
+        let directory = handle.files.get(path).ok_or(VfsErrorKind::FileNotFound)?;
+        if directory.file_type != VfsFileType::Directory {
+            return Err(VfsErrorKind::Other("Not a directory".into()).into());
+        }
+        let prefix = format!("{}/", path);
+        if handle.files.keys().any(|candidate| candidate.starts_with(&prefix)) {
             return Err(VfsErrorKind::Other("Directory to remove is not empty".into()).into());
         }
-        let mut handle = self.handle.write().unwrap();
         handle
             .files
             .remove(path)
